@@ -10,7 +10,7 @@ from common import Driver, DriverFailure
 
 LEVEL = "proof"
 MANIFEST = dict(
-    text="Lean 4 theorems over exact rationals on definitions translated from accessor.py / heater.py on every run (the four "
+    text="Lean 4 theorems over exact rationals on definitions translated from accessor.py / heater.py on every run (the four  Session 4: heater states keep the user setpoint (SetpointG) on the other side of the current temperature than the regulated target (RealSetPointG), so a heater reading the wrong word shows in real_target_temperature and in the operation ladder."
          "conversion expressions with the branch on \"C\" and int() truncation, the unit symbols, MIN/MAX, temperature_unit/min_temp/"
          "max_temp and the current_operation ladder): presented value = raw/18 or (raw+320)/10; write(read raw) = raw for ALL raw : Nat "
          "and every unit string; any temperature lands strictly within one device step (and on the greatest device value below it from "
